@@ -2,7 +2,7 @@
    equate it with (ExtrOcamlBasic only; no Extract Constant). *)
 From Coq Require Extraction.
 From Coq Require Import ExtrOcamlBasic.
-From LibFtp Require Import Bytes Decimal Reply Typed Endpoint.
+From LibFtp Require Import Bytes Decimal Reply Typed Endpoint Ascii.
 Extraction Language OCaml.
 Set Extraction Optimize.
 Extraction "model.ml"
@@ -11,4 +11,5 @@ Extraction "model.ml"
   (* Reply *)   is_positive is_negative is_intermediate default_reply append_all
                 spec_positive spec_text
   (* Endpoint *) try_parse_pasv_reply try_parse_epsv_reply make_port_command make_eprt_command dotted
+  (* Ascii *)   aread drain istart owrites sink_content to_crlf from_crlf
   (* Typed *)   parse_size parse_datetime parse_file_list is_time_val spec_file_list.
